@@ -133,7 +133,12 @@ func newWorld(variant string, rw, prime int) *world {
 	case "xhash":
 		m = semap.NewWideXHashSemMap(opts...)
 	}
-	return &world{m: m, rw: rw, s: sched.New(), calls: map[int]*call{}, sec: map[string]*section{}, hitSet: map[string]bool{}}
+	w := &world{m: m, rw: rw, s: sched.New(), calls: map[int]*call{}, sec: map[string]*section{}, hitSet: map[string]bool{}}
+	if rw < 1 {
+		// only reachable through the package default: the property (and every monitor below) presupposes rwRatio >= 1
+		w.hit("default-ratio-below-1", fmt.Sprintf("NewSemMap without WithRwRatio uses rwRatio %d: no reader can ever be admitted", rw))
+	}
+	return w
 }
 
 func (w *world) section(tok string) *section {
@@ -198,6 +203,12 @@ func (w *world) acquire(tid int, tok string, key interface{}, write, precancelle
 		cancel()
 	}
 	c := &call{tid: tid, tok: tok, key: key, write: write, seq: len(w.order), cancel: cancel}
+	// routing of the sharded variants: a function of the key, inside the shard array
+	i1, n1 := semap.VerifShardIndex(w.m, key)
+	i2, n2 := semap.VerifShardIndex(w.m, key)
+	if i1 != i2 || n1 != n2 || i1 < 0 || i1 >= n1 {
+		w.hit("wide-routing", fmt.Sprintf("key %s routed to shard %d then %d of %d/%d", tok, i1, i2, n1, n2))
+	}
 	sec := w.section(tok)
 	rw := int32(w.rw)
 	c.task = w.s.Go("acq"+strconv.Itoa(tid), func() string {
@@ -525,6 +536,19 @@ func runCase(c corr.Case) (res corr.Result) {
 				return "in=" + showIDs(ins) + " parked=" + showIDs(parked)
 			case len(f) == 1 && f[0] == "entries":
 				return strconv.Itoa(semap.VerifEntries(w.m))
+			case len(f) == 2 && f[0] == "obj":
+				tid, ok := natCanon(f[1], 9)
+				if !ok || w.calls[tid] == nil || w.calls[tid].status != stInside {
+					return "bad-op"
+				}
+				c := w.calls[tid]
+				sw, _ := c.w.Load().(*semap.Weighted)
+				held, waiters, inMap := semap.VerifSemState(w.m, c.key, sw)
+				p := 0
+				if inMap {
+					p = 1
+				}
+				return fmt.Sprintf("cur=%d waiters=%d inmap=%d", held, waiters, p)
 			case len(f) == 2 && f[0] == "state":
 				k, ok := parseKey(f[1])
 				if !ok {
